@@ -324,21 +324,21 @@ class Program:
         cg = {}
         local_adt_names = sorted(self.adts.keys(), key=len, reverse=True)
         adt_re = re.compile(r"(?<![\w:])(" + "|".join(re.escape(a) for a in local_adt_names) + r")(?![\w])") if local_adt_names else None
-        closure_re = re.compile(r"\{closure@[^}]*\}")
-        # dyn Fn targets: closures coerced to a dyn Fn type
+        # dyn Fn targets: closures / fn items unsize-coerced to a `dyn Fn..` type anywhere in the crate
         dyn_targets = defaultdict(set)
-        closure_ty_to_def = {}
-        for b in self.bodies.values():
-            if b.kind == "Closure":
-                pass
-        # map closure type strings to defs via aggregate statements
+        all_dyn_fn_targets = set()
         for b in self.bodies.values():
             blocksets = [b.raw["blocks"]] + [p["blocks"] for p in b.raw.get("promoted", [])]
             for blocks in blocksets:
                 for blk in blocks:
                     for s in blk["stmts"]:
-                        if s["k"] == "assign" and s["rv"]["k"] == "agg" and s["rv"].get("agg") == "closure":
-                            l = s["p"][0]
+                        if s["k"] == "assign" and s["rv"]["k"] == "cast" and s["rv"].get("to_dyn"):
+                            for dty in s["rv"]["to_dyn"]:
+                                for fd in s["rv"].get("from_defs", []):
+                                    dyn_targets[_dyn_key(dty)].add(fd)
+                                    if "Fn" in dty:
+                                        all_dyn_fn_targets.add(fd)
+        self.dyn_targets = dyn_targets
         for b in self.bodies.values():
             edges = defaultdict(list)  # target -> [reason]
             blocksets = [("", b.raw["blocks"])] + [(f"promoted{i}", p["blocks"]) for i, p in enumerate(b.raw.get("promoted", []))]
@@ -370,6 +370,12 @@ class Program:
                             edges["<virtual:" + c["orig"] + ">"].append(("virtual", bi))
                             for impl in self.trait_impls.get(c["orig"], []):
                                 edges[impl].append(("virtual-cha", bi))
+                            if c["orig"] in ("std::ops::Fn::call", "std::ops::FnMut::call_mut", "std::ops::FnOnce::call_once"):
+                                tg = dyn_targets.get(_dyn_key(c.get("self_ty", "")))
+                                if not tg:
+                                    tg = all_dyn_fn_targets
+                                for fd in tg:
+                                    edges[fd].append(("dyn-fn-cha", bi))
                         else:  # unresolved trait call on a type parameter / opaque type
                             edges["<unresolved:" + c["orig"] + ">"].append(("unresolved", bi))
                             for impl in self.trait_impls.get(c["orig"], []):
@@ -472,9 +478,13 @@ def _head_type(ty):
     return t.split("<", 1)[0]
 
 
-def _dyn_of(ty):
-    m = re.search(r"dyn [^>]*", ty)
-    return ty
+def _dyn_key(ty):
+    """Normalise a `dyn Trait` type string: drop lifetimes and parentheses."""
+    t = re.sub(r"for<[^>]*> ", "", ty)
+    t = re.sub(r"&'\w+ ", "&", t)
+    t = re.sub(r" \+ '\w+", "", t)
+    t = re.sub(r"'\w+,? ?", "", t)
+    return t.strip("()")
 
 
 def _closure_ord(d):
